@@ -44,6 +44,11 @@ namespace BitSerializer::Detail
 			return true;
 		}
 
+		// Reading the last chunk sets `eofbit` and `failbit`, which must be reset for able to rewind stream
+		if (pos != mStreamPos && mStream.eof() && !mStream.bad()) {
+			mStream.clear();
+		}
+
 		if (pos == mStreamPos || !mStream.seekg(static_cast<std::streamoff>(pos)).fail())
 		{
 			mStreamPos = pos;
